@@ -24,7 +24,7 @@ class PipeQueue1RTL( Component ):
     m.in_ //= s.enq.msg
     m.out //= s.deq.msg
 
-    s.full = Reg( Bits1 )
+    s.full = RegRst( Bits1, reset_value = 0 )
 
     @update
     def up_pipeq_use_deq_rdy():
@@ -96,7 +96,7 @@ class NormalQueue1RTL( Component ):
     m.en  //= s.enq.en
     m.in_ //= s.enq.msg
     m.out //= s.deq.msg
-    s.full = Reg( Bits1 )
+    s.full = RegRst( Bits1, reset_value = 0 )
 
     @update
     def up_normq_set_enq_rdy():
